@@ -98,6 +98,18 @@ def check_scene_pooled(case):
     by_mode = {}
     for m in ms.maps:
         by_mode.setdefault(str(m.matching_mode), []).append(m)
+    # every pooled result is judged on its own: the number of TPs in a label's ranking is the number of results that pass the row's threshold
+    # (several results may be paired with equal ground truths: the same annotated frame evaluated for two estimation frames)
+    for m in ms.maps:
+        if str(m.matching_mode) not in ("Center Distance", "Plane Distance"):
+            continue
+        thr = loose if m is by_mode[str(m.matching_mode)][0] else tight
+        for lab, a in zip(cof.target_labels, m.aps):
+            flat = [r for fr_ in pooled[lab] for r in fr_]
+            want = sum(1 for r in flat if r.ground_truth_object is not None and r.is_result_correct(m.matching_mode, thr))
+            got = a.tp_list[-1] if len(a.tp_list) else 0
+            if abs(got - want) > 1e-9:
+                return f"scene {m.matching_mode.value} at {thr}, {lab.value}: {want} pooled results pass the threshold on their own, the AP ranking counts {got} TPs"
     for mode in ("Center Distance", "Plane Distance"):
         rows = by_mode.get(mode, [])
         if len(rows) == 2:
@@ -106,6 +118,14 @@ def check_scene_pooled(case):
                     return f"scene {mode} AP is {a_loose.ap} at the looser threshold {loose} and {a_tight.ap} at the tighter threshold {tight}"
                 if a_tight.ap != float("inf") and a_tight.ap > 1 + 1e-9:
                     return f"scene {mode} AP {a_tight.ap} exceeds 1"
+            for a_loose, a_tight in zip(rows[0].aphs, rows[1].aphs):
+                if a_loose.ap != float("inf") and a_tight.ap != float("inf") and a_loose.ap < a_tight.ap - 1e-12:
+                    return f"scene {mode} APH is {a_loose.ap} at the looser threshold {loose} and {a_tight.ap} at the tighter threshold {tight}"
+            for nm in ("map", "maph"):
+                vl, vt = getattr(rows[0], nm), getattr(rows[1], nm)
+                same_labels = [x.ap == float("inf") for x in rows[0].aps] == [x.ap == float("inf") for x in rows[1].aps]
+                if same_labels and vl != float("inf") and vt != float("inf") and vl < vt - 1e-12:
+                    return f"scene {mode} {nm} is {vl} at the looser threshold {loose} and {vt} at the tighter threshold {tight}"
     return None
 
 
@@ -151,6 +171,14 @@ def search(item, seed):
         base = ap.gen_scene(rnd)
         case = dict(targets=base["targets"], crit=base["crit"], rows=[rnd.choice([1.7, 3.0, 2, 3]), rnd.choice([0.3, 0.9, 1])],
                     frames=[dict(est=base["est"], gt=base["gt"])] + [(lambda b: dict(est=b["est"], gt=b["gt"]))(ap.gen_scene(rnd)) for _ in range(rnd.randint(1, 2))])
+        if rnd.random() < 0.6:
+            # the estimator publishes faster than the annotation rate: further estimation frames are evaluated against an annotated frame already used
+            # (equal ground truths in one ranking), with estimates nearer or farther, more or less confident, and headed differently
+            for f in list(case["frames"]):
+                if f["gt"] and rnd.random() < 0.7:
+                    case["frames"].append(dict(gt=[dict(g) for g in f["gt"]],
+                                               est=[dict(label=g["label"], x=g["x"] + rnd.choice([0.1, 0.6, 1.2, 2.2]), y=g["y"], yaw=rnd.choice([0.0, 0.4, 2.8]),
+                                                         score=round(rnd.uniform(0.05, 0.99), 3), uuid="r%d" % k) for k, g in enumerate(f["gt"]) if rnd.random() < 0.8]))
         try:
             why = check_scene_pooled(case)
         except Exception as ex:
